@@ -57,7 +57,7 @@ type Policy struct {
 
 // LayoutFeatures - names of all variation points
 var LayoutFeatures = []string{"quote-style", "cmp-word", "assign-word", "member-de", "let-word", "prop-word", "pre-line", "inner-break",
-	"cont-indent", "comment-indent", "optional-comma", "extra-space", "opt-space", "ascii-twin", "backtick-id", "trail-comment", "final-eol", "raw-linebreak", "inner-blank"}
+	"cont-indent", "comment-indent", "optional-comma", "extra-space", "opt-space", "ascii-twin", "backtick-id", "trail-comment", "final-eol", "raw-linebreak", "inner-blank", "blank-spaces"}
 
 func (p *Policy) pick(n int, what string) int {
 	if p == nil || !p.Rich || n <= 1 {
@@ -640,6 +640,8 @@ func Layout(lines []Line, pol *Policy) (string, LineMap) {
 		}
 		switch pol.pick(6, "pre-line") {
 		case 1:
+			// a blank line - which may hold white space of any kind and amount
+			b.WriteString([]string{"", "  ", "\t", " \t ", "       ", "\u3000"}[pol.pick(6, "blank-spaces")])
 			b.WriteString(eol)
 			phys++
 		case 2:
